@@ -45,9 +45,15 @@ for mj in sorted(glob.glob(os.path.join(ROOT, "seeded", "*", "*", "meta.json")))
         m.get("pinned_tests_with_patch"), verdict, ", ".join(vio) or "—"))
 table2 = "\n".join(rows)
 
+m = json.load(open(os.path.join(ROOT, "MANIFEST.json")))
+rows = ["| property | reason it is not claimed |", "|---|---|"]
+for na in m.get("not_applicable", []):
+    rows.append("| %s | %s |" % (na["property_id"], short(na["reason"], 400)))
+table3 = "\n".join(rows)
+
 p = os.path.join(ROOT, "DESIGN.md")
 s = open(p).read()
-for name, tab in (("PROPERTIES", table1), ("SEEDS", table2)):
+for name, tab in (("PROPERTIES", table1), ("SEEDS", table2), ("NOTCLAIMED", table3)):
     b, e = "<!-- GENERATED:%s -->" % name, "<!-- /GENERATED:%s -->" % name
     if b in s:
         s = s[:s.index(b) + len(b)] + "\n" + tab + "\n" + s[s.index(e):]
